@@ -64,22 +64,26 @@ Proof.
 Qed.
 Print Assumptions C14_ops_stay_in_range.
 
-(* String() of a declared value is its (trimmed) name, also under -bit *)
+(* String() of a declared value is its (trimmed, first declared) name, also under -bit *)
 Theorem C14_string_of_declared : forall p T fl g n v,
   enum_guard p T = true -> generate p T fl = Some g -> In (n, v) (declared T p) ->
-  str_of (const_env p) g v = trim_prefix n T.
-Proof. intros p T fl g n v Hgd Hgen Hin. exact (proj1 (proj2 (P_constant_to_name_and_back p T fl g n v Hgd Hgen Hin))). Qed.
+  exists n1, first_name (declared T p) v = Some n1 /\ str_of (const_env p) g v = trim_prefix n1 T.
+Proof.
+  intros p T fl g n v Hgd Hgen Hin.
+  destruct (proj2 (P_constant_to_name_and_back p T fl g n v Hgd Hgen Hin)) as [n1 [Hf [_ [Hs _]]]].
+  exists n1. exact (conj Hf Hs).
+Qed.
 Print Assumptions C14_string_of_declared.
 
 (* String() of a union of declared single-bit flags that is not itself declared:
    the flags' names in ascending flag order joined by ", ".
-   S = the flags (any number, ascending), names = their declared names.
+   S = the flags (any number, ascending), names = their (first) declared names.
    Other declared values (a zero, composites) may be present in any number. *)
 Theorem C14_string_of_union : forall p T fl g (names : list string) (S : list Z),
   enum_guard p T = true -> generate p T fl = Some g -> f_bit fl = true ->
   Forall (fun v => 0 <= v) (map snd (declared T p)) ->
   S <> [] -> StronglySorted Z.lt S -> Forall single_bit S ->
-  Forall2 (fun n s => In (n, s) (declared T p)) names S ->
+  Forall2 (fun n s => first_name (declared T p) s = Some n) names S ->
   ~ In (lor_all S) (map snd (declared T p)) ->
   str_of (const_env p) g (lor_all S) = join ", " (map (fun n => trim_prefix n T) names).
 Proof. exact P_bit_string_union. Qed.
@@ -106,7 +110,7 @@ Theorem C14_string_cases_exhaustive : forall p T fl g x,
   In x (map snd (declared T p))
   \/ x < 0 \/ x = 0
   \/ (exists names S, S <> [] /\ StronglySorted Z.lt S /\ Forall single_bit S /\
-                      Forall2 (fun n s => In (n, s) (declared T p)) names S /\ x = lor_all S)
+                      Forall2 (fun n s => first_name (declared T p) s = Some n) names S /\ x = lor_all S)
   \/ (exists i, 0 <= i /\ Z.testbit x i = true /\ ~ In (2 ^ i) (map snd (declared T p))).
 Proof. exact P_bit_cases. Qed.
 Print Assumptions C14_string_cases_exhaustive.
@@ -168,13 +172,13 @@ Proof. conj; vm_compute; reflexivity. Qed.
 (* S = {Read, Exec, Sticky}: union 69 is not declared *)
 Example C14_example_union_hypotheses :
   StronglySorted Z.lt [1; 4; 64] /\ Forall single_bit [1; 4; 64]
-  /\ Forall2 (fun n s => In (n, s) (declared "Perm" ex_pkg)) ["PermRead"; "PermExec"; "Sticky"] [1; 4; 64]
+  /\ Forall2 (fun n s => first_name (declared "Perm" ex_pkg) s = Some n) ["PermRead"; "PermExec"; "Sticky"] [1; 4; 64]
   /\ ~ In (lor_all [1; 4; 64]) (map snd (declared "Perm" ex_pkg)).
 Proof.
   repeat split.
   - repeat constructor.
   - repeat constructor; [exists 0 | exists 2 | exists 6]; split; reflexivity || (cbn; discriminate) || (apply Z.leb_le; reflexivity).
-  - repeat (apply Forall2_cons; [vm_compute; tauto|]). apply Forall2_nil.
+  - repeat (apply Forall2_cons; [vm_compute; reflexivity|]). apply Forall2_nil.
   - vm_compute. intuition discriminate.
 Qed.
 
